@@ -33,7 +33,21 @@ ASSUMPTIONS = [
 ]
 ADMISSION = {"InvalidPduDirection", "InvalidSourceId", "InvalidDestinationId", "InvalidTransactionSeqNum", "NoRemoteEntityCfgFound",
              "InvalidPduForSourceHandler", "InvalidPduForDestHandler", "PduIgnoredForSource", "PduIgnoredForDest"}
-CONDS = ["NO_ERROR", "POSITIVE_ACK_LIMIT_REACHED", "FILE_CHECKSUM_FAILURE", "FILE_SIZE_ERROR", "NAK_LIMIT_REACHED", "CANCEL_REQUEST_RECEIVED", "CHECK_LIMIT_REACHED"]
+CONDS = ["NO_ERROR", "POSITIVE_ACK_LIMIT_REACHED", "FILE_CHECKSUM_FAILURE", "FILE_SIZE_ERROR", "NAK_LIMIT_REACHED", "CANCEL_REQUEST_RECEIVED", "CHECK_LIMIT_REACHED",
+         "KEEP_ALIVE_LIMIT_REACHED", "INVALID_TRANSMISSION_MODE", "FILESTORE_REJECTION", "INACTIVITY_DETECTED", "UNSUPPORTED_CHECKSUM_TYPE", "SUSPEND_REQUEST_RECEIVED"]
+MD_OPTIONS = [{"msgs": [["raw", "80818283848586"], ["raw", "fffefdfcfb"]]}, {"msgs": [["raw", "c3283132333435"], ["orig", 5, 2, 7, 2]]}, {"msgs": [["raw", "0102030405"]]},
+              {"opts": {"fs_requests": 2}}, {"opts": {"flow_label": ""}}, {"opts": {"flow_label": "0a0b", "overrides": 3}},
+              {"opts": {"overrides": [["NAK_LIMIT_REACHED", "IGNORE_ERROR"], ["POSITIVE_ACK_LIMIT_REACHED", "ABANDON_TRANSACTION"], ["CHECK_LIMIT_REACHED", "IGNORE_ERROR"]]},
+               "msgs": [["proxy_put_request", 3, "a", "b"]]}]
+
+
+def md_options(spec):
+    """TLV objects for the options of a Metadata PDU, from the same specs the put requests of the bench are built from"""
+    from ..msgs import build_msgs, build_opts
+
+    kw = build_opts(spec.get("opts"))
+    out = list(kw.get("fs_requests") or []) + list(kw.get("fault_handler_overrides") or []) + ([kw["flow_label_tlv"]] if kw.get("flow_label_tlv") is not None else [])
+    return out + list(build_msgs(spec["msgs"]) if spec.get("msgs") else [])
 
 
 def gen_cases(tier, seed):
@@ -125,6 +139,8 @@ def rand_pdu(rng, w, ep, size, force_kind=None):
         if rng.random() < 0.1:
             f["src_name"] = None
             f["dst_name"] = None
+        if rng.random() < 0.2:
+            f["options"] = md_options(rng.choice(MD_OPTIONS))  # binary / reserved messages to user, filestore requests, overrides, flow label
     elif kind == "FD":
         off = rng.choice([0, 0, 1, 2, 4, 4, 6, 8, 9, 12, 30, size])
         ln = rng.choice([1, 2, 4, 4, 7, 13])
@@ -176,7 +192,7 @@ def rand_pdu(rng, w, ep, size, force_kind=None):
             raw = raw.replace(name, (b"\xff\xfe" if rng.random() < 0.5 else b"n\x00") + name[2:], 1)  # not UTF-8 / an embedded NUL byte
             f = dict(f, binary_file_name=True)
     return kind, raw, {"kind": kind, "conf": [conf.source_entity_id.value, conf.dest_entity_id.value, conf.transaction_seq_num.value, idw], "ts": ts,
-                       "f": {k: (v.hex() if isinstance(v, (bytes, bytearray)) else v) for k, v in f.items() if k not in ("src_name", "dst_name")}}
+                       "f": {k: (v.hex() if isinstance(v, (bytes, bytearray)) else v) for k, v in f.items() if k not in ("src_name", "dst_name", "options")}, "options": len(f.get("options") or [])}
 
 
 # alphabet of the bounded exhaustive enumeration: well-formed PDUs of the current transaction (right ids, the transfer's own mode) and API actions
@@ -299,6 +315,8 @@ def run_fuzz(case):
                     actions_log.append(desc)
                     if isinstance(desc, dict) and desc.get("f", {}).get("mutated_bytes"):
                         obs["byte_mutated_pdus_accepted_by_the_parser"] = obs.get("byte_mutated_pdus_accepted_by_the_parser", 0) + 1
+                    if isinstance(desc, dict) and desc.get("options"):
+                        obs["metadata_pdus_with_options"] = obs.get("metadata_pdus_with_options", 0) + 1
                     if isinstance(desc, dict) and desc.get("f", {}).get("binary_file_name"):
                         obs["metadata_pdus_with_non_utf8_file_name"] = obs.get("metadata_pdus_with_non_utf8_file_name", 0) + 1
                     keys["fuzzed"].append(f"{case['side']}|{step_name}|{kind}")
@@ -322,12 +340,20 @@ def run_fuzz(case):
                     actions_log.append("put")
                     ep.put(w.put_request())
                 elif act == "put":
-                    pk = rng.choice(["same", "empty", "md_only", "missing", "unknown_dest", "long_source_name", "long_dest_name", "binary_msgs", "source_without_dest", "dest_without_source"])
+                    pk = rng.choice(["same", "empty", "md_only", "missing", "unknown_dest", "long_source_name", "long_dest_name", "binary_msgs", "source_without_dest", "dest_without_source", "with_options"])
                     if pk.startswith("long_") and w.cfg["fs"] != "mem":
                         pk = "same"  # (the host file system of the native filestore has its own limit per path component)
                     actions_log.append("put:" + pk)
                     if pk == "same":
                         req = w.put_request()
+                    elif pk == "with_options":
+                        # filestore requests, fault handler overrides, a flow label (also an empty one), reserved and binary messages
+                        from ..msgs import build_msgs, build_opts
+
+                        spec = rng.choice(MD_OPTIONS)
+                        req = PutRequest(w.dst_id, w.src_path, w.dst_req_path, None, None, msgs_to_user=build_msgs(spec["msgs"]) if spec.get("msgs") else None,
+                                         **build_opts(spec.get("opts")))
+                        obs["put_requests_with_options"] = obs.get("put_requests_with_options", 0) + 1
                     elif pk == "unknown_dest":
                         req = PutRequest(ByteFieldGenerator.from_int(2, 77), w.src_path, w.dst_req_path, None, None)
                     elif pk == "md_only":
@@ -437,8 +463,11 @@ def run_loop(case):
            "size": rng.choice([0, seg, 3 * seg + 1, 9 * seg + 2]), "crc": rng.random() < 0.3, "cks": rng.choice(["crc32", "crc32c", "modular", "null"]),
            "ack_limit": rng.choice([2, 3]), "nak_limit": rng.choice([2, 3]), "check_limit": 2, "disp": rng.random() < 0.3,
            "maxpkt": rng.choice([64, 64, 36, 40]) if seg <= 8 else 64}
+    if rng.random() < 0.3:
+        cfg.update(rng.choice(MD_OPTIONS))  # the put request carries messages to user (binary ones too) and / or other options
     viol, obs = [], {}
     with World(cfg) as w:
+        obs["loop_cases_with_put_request_options"] = int(bool(cfg.get("opts") or cfg.get("msgs")))
         sc = rng.choice([0.1, 0.25, 0.4])
         plan = RandomPlan(case["seed"], {"drop": 0.3 * sc, "dup": 0.2 * sc, "delay": 0.2 * sc, "quiet": 0.05 * sc, "late": 0.05 * sc})
         actions = {}
@@ -488,4 +517,4 @@ def finalize(ctx):
     return [], inc
 
 
-REQUIRED = {"put_requests_with_one_file_name_only": 50, "metadata_pdus_with_non_utf8_file_name": 50, "put_requests_with_binary_messages_to_user": 50, "put_requests_with_over_long_names": 50, "pdus_together_with_timer_expiry": 500, "resets_with_undrained_queue": 500, "enumerated_sequences": 5000, "fuzz_cases": 200, "pdus_to_busy_handler": 2000, "admission_rejections_checked": 500, "loop_cases": 200, "calls_returned": 2000}
+REQUIRED = {"put_requests_with_one_file_name_only": 50, "metadata_pdus_with_non_utf8_file_name": 50, "put_requests_with_binary_messages_to_user": 50, "put_requests_with_over_long_names": 50, "pdus_together_with_timer_expiry": 500, "resets_with_undrained_queue": 500, "enumerated_sequences": 5000, "fuzz_cases": 200, "pdus_to_busy_handler": 2000, "admission_rejections_checked": 500, "loop_cases": 200, "calls_returned": 2000, "loop_cases_with_put_request_options": 100, "metadata_pdus_with_options": 50, "put_requests_with_options": 50}
